@@ -72,10 +72,11 @@ class World:
             data = bts()
             noack, attempts, ok, nr = ints[p: p + 4]
             p += 4
-            rec = [(ints[p + 2 * k], ints[p + 2 * k + 1]) for k in range(nr)]
+            raw = [(ints[p + 2 * k], ints[p + 2 * k + 1]) for k in range(nr)]
             p += 2 * nr
             out.append({"from": frm, "addr": addr, "data": data, "noack": bool(noack), "attempts": attempts,
-                        "ok": bool(ok), "receivers": rec})
+                        "ok": bool(ok), "receivers": [(a, b & 7) for a, b in raw], "raw_receivers": raw,
+                        "acked_by": [a for a, b in raw if b >= 8]})
         return out
 
     def run_hooks(self):
